@@ -44,6 +44,7 @@ func runModeNormal(procs *[]Process) (exitNum int) {
 			}
 		}
 
+		verifYield("sched.spawn")
 		go executeProcess(&(*procs)[i])
 	}
 
